@@ -765,7 +765,7 @@ def exp_queries(er, names):
             try:
                 cfg = {k: plain(v) for k, v in er.best_config(m).items()}
                 cfg = {k: v for k, v in cfg.items() if not isnan(v) and v is not None and v is not pd.NA}
-            except (ValueError, TypeError, KeyError):
+            except (ValueError, TypeError, KeyError, AssertionError, IndexError):
                 cfg = None
         out.append((m, cfg))
     return out
@@ -785,8 +785,10 @@ def run_model_term(tb, rm):
             steps.append("Started %s" % zlit(st[1]))
         else:
             steps.append("Fault")
-    answers = lst(["{| an_decision := %s; an_stops := %s |}" % (natlit(tb.tok(d)), blit(d in ("STOP", "PAUSE")))
-                   for d in rm["decisions"]])
+    n = len(rm["decisions"])
+    answers = lst(["{| an_decision := %s; an_stops := %s; an_exec_fails := %s |}" % (
+        natlit(tb.tok(d)), blit(d in ("STOP", "PAUSE")), blit(rm.get("exec_fault", False) and i == n - 1))
+        for i, d in enumerate(rm["decisions"])])
     return "(%s, %s, %s, %s, %s, %s)" % (
         optlit(rm["old"], lambda rows: lst([dict_term(tb, r) for r in rows])), answers, lst(steps),
         blit(rm["stop_fails"]), blit(rm["raised"]), lst([natlit(x) for x in rm["end_order"]]))
@@ -1097,6 +1099,7 @@ def make_run_classes():
             self.faults = dict(faults or {})  # injected faults: stop_all raises; the poll_at-th poll raises
             self.calls = 0
             self.fired = []
+            self.n_exec = {}
             self.poll = 0
             self.stamp = 0.0
             self.limit = {}
@@ -1143,13 +1146,24 @@ def make_run_classes():
                 out.append(tr)
             return out
 
+        def _decision_fault(self, what, result):
+            """injected fault while a STOP / PAUSE decision of the scheduler is carried out (result is not None
+            then; stop_all stops trials without a result)"""
+            if result is None:
+                return
+            self.n_exec[what] = self.n_exec.get(what, 0) + 1
+            if self.faults.get(what + "_at") == self.n_exec[what]:
+                self.fired.append("exec")
+                raise ConnectionError("injected fault: backend unreachable in %s" % what)
+
         def _pause_trial(self, trial_id, result):
-            pass
+            self._decision_fault("pause_trial", result)
 
         def _resume_trial(self, trial_id):
             pass
 
         def _stop_trial(self, trial_id, result):
+            self._decision_fault("stop_trial", result)
             self._trial_dict[trial_id].status = Status.stopped
 
         def busy_trial_ids(self):
@@ -1218,11 +1232,12 @@ def make_run_classes():
     class RecordingScheduler(TrialScheduler):
         """delegates everything to the real scheduler; records what is delivered to it and its decisions"""
 
-        def __init__(self, inner, suggest_fault_at=None):
+        def __init__(self, inner, suggest_fault_at=None, remove_fault_at=None):
             super().__init__(config_space=inner.config_space)
             self.inner = inner
             self.delivered = []
             self.suggest_fault_at, self.n_suggest_calls = suggest_fault_at, 0
+            self.remove_fault_at, self.n_remove_calls, self.exec_fault_fired = remove_fault_at, 0, False
 
         def suggest(self, trial_id):
             self.n_suggest_calls += 1
@@ -1248,6 +1263,10 @@ def make_run_classes():
             return self.inner.on_trial_complete(trial, result)
 
         def on_trial_remove(self, trial):
+            self.n_remove_calls += 1
+            if self.remove_fault_at == self.n_remove_calls:
+                self.exec_fault_fired = True
+                raise RuntimeError("injected fault: scheduler failed in on_trial_remove call %d" % self.n_remove_calls)
             return self.inner.on_trial_remove(trial)
 
         def metric_names(self):
@@ -1356,7 +1375,10 @@ def gen_run_spec(rng, idx):
     if rng.random() < 0.4:  # injected faults: the run ends with an exception, the table must be complete anyway
         spec["faults"] = rng.choice([dict(stop_all=True), dict(stop_all=True), dict(suggest_at=rng.randint(2, 6)),
                                      dict(poll_at=rng.randint(2, 8)),
-                                     dict(stop_all=True, poll_at=rng.randint(2, 8))])
+                                     dict(stop_all=True, poll_at=rng.randint(2, 8)),
+                                     # a STOP / PAUSE decision cannot be carried out
+                                     dict(stop_trial_at=rng.randint(1, 2)), dict(pause_trial_at=1),
+                                     dict(remove_at=rng.randint(1, 2)), dict(stop_trial_at=1, stop_all=True)])
     if kind == "fifo" and k > 1 and rng.random() < 0.5:
         one = rng.choice(["min", "max"])
         spec["mode"] = [one] * k
@@ -1399,18 +1421,17 @@ def build_scheduler(spec):
     return cls.ScriptedScheduler(names, mode, spec["configs"], spec["decisions"], spec["resume_configs"]), None
 
 
-def run_whole(ctx, spec):
+def build_whole(spec, metadata=None):
+    """scheduler, backend, callbacks and Tuner of one whole-run case (constructed, not run)"""
     from syne_tune import Tuner
-    from syne_tune.tuning_status import print_best_metric_found
     cls = make_run_classes()
     RecordingStore = make_recording_callback()
-    mod = experiments_module(ctx)
-    names, mode = spec["names"], spec["mode"]
-    with quiet() as out:
+    with quiet():
         inner, limit_attr = build_scheduler(spec)
-        sched = cls.RecordingScheduler(inner, (spec.get("faults") or {}).get("suggest_at"))
+        sched = cls.RecordingScheduler(inner, (spec.get("faults") or {}).get("suggest_at"),
+                                       (spec.get("faults") or {}).get("remove_at"))
         backend = cls.ScriptedBackend([[cast_result(r, spec.get("dtypes")) for r in sc] for sc in spec["scripts"]],
-                                         spec["chunks"], spec["outcomes"], limit_attr, spec.get("faults"))
+                                      spec["chunks"], spec["outcomes"], limit_attr, spec.get("faults"))
         store, rec = RecordingStore(add_wallclock_time=True), cls.Recorder()
         store.order = backend.order = []
 
@@ -1419,15 +1440,22 @@ def run_whole(ctx, spec):
 
         tuner = Tuner(trial_backend=backend, scheduler=sched, stop_criterion=stop, n_workers=spec["n_workers"],
                       sleep_time=0, results_update_interval=spec["rui"], print_update_interval=1e9, max_failures=1000,
-                      tuner_name=spec["name"], suffix_tuner_name=False, save_tuner=False, callbacks=[store, rec])
-        tuner.tuning_status = cls.RecordingStatus(metric_names=list(names))
+                      tuner_name=spec["name"], suffix_tuner_name=False, save_tuner=False, callbacks=[store, rec],
+                      metadata=metadata)
+        tuner.tuning_status = cls.RecordingStatus(metric_names=list(spec["names"]))
+    return dict(tuner=tuner, sched=sched, backend=backend, store=store, rec=rec)
+
+
+def run_whole(ctx, spec, metadata=None, built=None):
+    b = built if built is not None else build_whole(spec, metadata)
+    with quiet() as out:
         run_error = None
         try:
-            tuner.run()
+            b["tuner"].run()
         except Exception as e:  # noqa: BLE001
             run_error = raised(e)
         summaries = [parse_summary(out.getvalue())] if run_error is None else []
-        return collect_run(ctx, spec, tuner, sched, backend, store, rec, summaries, run_error)
+        return collect_run(ctx, spec, b["tuner"], b["sched"], b["backend"], b["store"], b["rec"], summaries, run_error)
 
 
 def collect_run(ctx, spec, tuner, sched, backend, store, rec, summaries, run_error, split=None):
@@ -1436,7 +1464,9 @@ def collect_run(ctx, spec, tuner, sched, backend, store, rec, summaries, run_err
     names, mode = spec["names"], spec["mode"]
     ts = tuner.tuning_status
     rows = [dict(r) for r in store.results]
-    deliveries = [dict(d, status=st) for d, st in zip(sched.delivered, rec.statuses)]
+    import itertools
+    deliveries = [dict(d, status=st) for d, st in itertools.zip_longest(sched.delivered, rec.statuses)
+                  if d is not None]
     n_delivered = (len(sched.delivered), len(rec.statuses))
     overall = stats_obs(ts.overall_metric_statistics)
     per_trial = {int(t): stats_obs(s) for t, s in ts.trial_metric_statistics.items()}
@@ -1466,7 +1496,13 @@ def collect_run(ctx, spec, tuner, sched, backend, store, rec, summaries, run_err
         history = list(ts.calls)
     else:
         history = [(list(st[1].keys()), list(st[2])) if st[0] == "batch" else ([st[1]], []) for st in rec.log]
-    return dict(deliveries=deliveries, events=events, handed=list(rec.handed), history=history, rows=rows, df=df,
+    handed = list(rec.handed)
+    if "exec" in getattr(backend, "fired", []) or getattr(sched, "exec_fault_fired", False):
+        # the run died while a STOP / PAUSE was carried out, in the middle of a poll: the tuning status is only
+        # updated at the end of a poll, so the results of that last poll are not part of the statistics
+        last = [st for st in rec.log if st[0] == "batch"][-1]
+        handed = handed[:len(handed) - len(last[2])]
+    return dict(deliveries=deliveries, events=events, handed=handed, history=history, rows=rows, df=df,
                 overall=overall, per_trial=per_trial, backend_cfgs=backend_cfgs, bq=bq, tq=tq, table=table, eqs=eqs,
                 stores=stores, n_delivered=n_delivered, meta_ok=meta_ok, summaries=summaries, run_error=run_error,
                 split=split, run_model=None if split is not None else tuner_run_inputs(sched, backend, store, rec, run_error))
@@ -1480,7 +1516,8 @@ def tuner_run_inputs(sched, backend, store, rec, run_error):
     steps = list(rec.log)
     if "poll" in backend.fired or getattr(sched, "fault_fired", False):
         steps.append(("fault",))
-    return dict(old=None, decisions=[d["decision"] for d in sched.delivered], steps=steps,
+    exec_fault = "exec" in backend.fired or getattr(sched, "exec_fault_fired", False)
+    return dict(old=None, exec_fault=exec_fault, decisions=[d["decision"] for d in sched.delivered], steps=steps,
                 stop_fails="stop_all" in backend.fired, raised=run_error is not None, end_order=end_order)
 
 
@@ -1574,6 +1611,13 @@ def run_cases(ctx, replay, corpus_only=False):
             sp.update(resume=rng.choice(["same", "moved", "moved", "same_object", "same_object"]), more_results=rng.randint(2, 15),
                       max_results=rng.randint(2, 10), rui=rng.choice([0, 10.0, 10.0, -1]))
             specs.append(sp)
+        for i in range(ctx.n(14, 160)):  # experiments sharing one metadata dict
+            sp = gen_run_spec(rng, 30000 + i)
+            sp.pop("faults", None)
+            sp["shared_metadata"] = rng.choice([True, "constructed_first", "constructed_first"])
+            if sp["shared_metadata"] == "constructed_first" and sp["kind"] != "hb_promotion" and rng.random() < 0.5:
+                sp["rename_first"] = True  # the first experiment also has other metric names
+            specs.append(sp)
         for i in range(ctx.n(16, 200)):  # the experiment is run AGAIN under the same fixed name (fresh objects)
             sp = gen_run_spec(rng, 20000 + i)
             sp.pop("faults", None)
@@ -1587,7 +1631,64 @@ def run_cases(ctx, replay, corpus_only=False):
     terms, meta = [], []
     for i, spec in enumerate(specs):
         case = dict(kind="run", spec=spec)
-        if spec.get("rerun"):
+        if spec.get("shared_metadata") == "constructed_first":
+            # BOTH tuners are constructed with the same metadata dict before the first one runs (a list of
+            # experiments built first, launched afterwards): each experiment's metadata.json and loaded
+            # best_config must describe that experiment, and the caller's dict stays as it was (F-C17-5)
+            md = {"benchmark": "c17"}
+            md_before = dict(md)
+            flip = {"min": "max", "max": "min"}
+            m = spec["mode"]
+            first_spec = dict(spec, name=spec["name"] + "-a", shared_metadata=None,
+                              names=[n + "x" for n in spec["names"]] if spec.get("rename_first") else spec["names"],
+                              mode=[flip[x] for x in m] if isinstance(m, list) else flip[m])
+            if spec.get("rename_first"):
+                first_spec["scripts"] = [[{(k + "x" if k in spec["names"] else k): v for k, v in r.items()}
+                                          for r in sc] for sc in spec["scripts"]]
+                first_spec["dtypes"] = {(k + "x" if k in spec["names"] else k): v
+                                        for k, v in (spec.get("dtypes") or {}).items()}
+                if first_spec["kind"] == "scripted":
+                    pass
+            first_spec.pop("ctor_mode", None)
+            b1 = build_whole(first_spec, md)
+            b2 = build_whole(dict(spec, shared_metadata=None), md)
+            SHARED = dict(part="best_experiment", kind="run", scheduler=spec["kind"],
+                          defect="metadata_dict_shared_between_tuners")
+            if md != md_before:
+                ctx.violation("property", "best_experiment: the metadata dict passed to Tuner was modified (keys %r "
+                              "added): the next tuner given the same dict inherits this experiment's entries"
+                              % sorted(set(md) - set(md_before)), case=case, signature=SHARED)
+            first = run_whole(ctx, first_spec, built=b1)
+            n_before = len(ctx.violations)
+            first_case = dict(kind="run", spec=spec)
+            if not first["meta_ok"]:
+                ctx.violation("property", "best_experiment: metadata.json of the FIRST of two experiments constructed "
+                              "with one metadata dict states the other experiment's metric names / modes",
+                              case=first_case, signature=SHARED)
+            for mm, c in first["eqs"]:
+                name, mdm = mode_of(first_spec["names"], first_spec["mode"], mm)
+                why = check_best_exp(first["table"], name, mdm, c)
+                if why:
+                    ctx.violation("property", "best_experiment (first of two experiments constructed with one "
+                                  "metadata dict): " + why, case=first_case, signature=SHARED)
+            shutil.rmtree(os.path.join(_TMP_ROOT, first_spec["name"]), ignore_errors=True)
+            obs = run_whole(ctx, dict(spec, shared_metadata=None), built=b2)
+            ctx.h("run_shared_metadata", "both constructed first%s" % (", other metric names" if spec.get("rename_first")
+                                                                        else ""))
+        elif spec.get("shared_metadata"):
+            # a benchmark loop: ONE metadata dict is passed to consecutive experiments whose schedulers differ in
+            # mode; what is loaded afterwards for the LAST experiment must describe the last experiment
+            md = {"benchmark": "c17"}
+            flip = {"min": "max", "max": "min"}
+            m = spec["mode"]
+            first_spec = dict(spec, name=spec["name"] + "-a", shared_metadata=None,
+                              mode=[flip[x] for x in m] if isinstance(m, list) else flip[m])
+            first_spec.pop("ctor_mode", None)
+            first = run_whole(ctx, first_spec, metadata=md)
+            shutil.rmtree(os.path.join(_TMP_ROOT, first_spec["name"]), ignore_errors=True)
+            obs = run_whole(ctx, dict(spec, shared_metadata=None), metadata=md)
+            ctx.h("run_shared_metadata", "second of two experiments, rows: %s" % ("some" if obs["rows"] else "none"))
+        elif spec.get("rerun"):
             # first run under the fixed name stores its table; then fresh scheduler / backend / callbacks / Tuner in
             # the same experiment directory: what is read back afterwards must be the table of the LAST run only
             first = run_whole(ctx, dict(spec, rerun=None))
